@@ -178,6 +178,7 @@ func runC10(w *core.World, r *core.Report) {
 	r.Rule("R12", "the data type, session and language selected on a handle are written by their setters only")
 	r.Rule("R11", "a listing (Dump) leaves the data type, session and language selected on the store handle as it found them")
 	r.Rule("R10", "fs Get answers from the store: every value it returns is what a file read returned in that call (no memoised copy beside the store)")
+	r.Rule("R14", "filesystem listing: Dump re-initialises every field of the handle the listing functions keep their progress in")
 	r.Rule("R9", "filesystem listing: the directory cursor is the full listing and only ever advances by one entry (no entry is skipped unexamined)")
 
 	bes := dbBackends(w, r)
@@ -404,7 +405,45 @@ func runC10(w *core.World, r *core.Report) {
 					"a stored key is treated as missing depending on its value (an empty value no longer shadows the default-language entry): the backends diverge")
 			}
 		}
-		_ = nl
+		if nl > 0 {
+			// a value handed out is the value component of a comma-ok lookup, behind its ok edge: a
+			// record found is not a value found (a key written only under a language has no default)
+			for i, ret := range successReturns(be.get) {
+				v := core.ReturnValue(ret, 0)
+				if v == nil || core.IsNilConst(v) {
+					continue
+				}
+				bad := ""
+				for _, src := range core.Sources(v) {
+					ex, ok := src.(*ssa.Extract)
+					var lk *ssa.Lookup
+					if ok {
+						lk, _ = ex.Tuple.(*ssa.Lookup)
+					}
+					if lk == nil || !lk.CommaOk || ex.Index != 0 {
+						bad = "the value returned derives from " + valueDesc(src) + ", not from the value of a comma-ok map lookup"
+						continue
+					}
+					var okv ssa.Value
+					if refs := lk.Referrers(); refs != nil {
+						for _, u := range *refs {
+							if e2, ok := u.(*ssa.Extract); ok && e2.Index == 1 {
+								okv = e2
+							}
+						}
+					}
+					if okv == nil {
+						bad = "the presence result of the lookup is not used"
+						continue
+					}
+					if hit, _ := core.Reach(core.Entry(be.get), core.IsInstr(ret), core.NewCut().AddEdge(core.EdgesWhere(okv, true)...)); hit != nil {
+						bad = "the return is reachable without passing the lookup's ok edge"
+					}
+				}
+				r.Check(bad == "", "R8", fmt.Sprintf("%s.%s.Get: value handed out #%d is a looked-up value behind its own ok", be.pkg, be.typ, i+1), ret.Pos(), "value of a comma-ok lookup, behind the ok edge",
+					"a key that was never written (under this language or the default) is answered with a value instead of not-found: "+bad)
+			}
+		}
 	}
 
 	// ---- R9 -----------------------------------------------------------------------------------
@@ -447,6 +486,8 @@ func runC10(w *core.World, r *core.Report) {
 		r.Check(bad == "" && sawFull && sawStep, "R9", "db/fs listing cursor: full listing, advanced one entry at a time", token.NoPos, fmt.Sprintf("%d stores: os.ReadDir result or cursor[1:]", n),
 			"the listing can skip directory entries without examining them (a key that exists is not listed): "+bad)
 	}
+
+	checkListingStateReinitialised(w, r, "R14")
 
 	// ---- R10 ----------------------------------------------------------------------------------
 	if get := w.Func("db/fs", "(*fsDb).Get"); get != nil {
